@@ -35,11 +35,22 @@ def run(ck, ctx):
                      "only is the same prefix every round, so when the divergent buckets hold more keys than the limit and the differing "
                      "keys lie behind it, no number of rounds completes the sync")
     ck.nd("the number of rounds needed when progress is possible; hash collisions")
+    ck.rule("R18.9", "a sync leaves both sides merged: the ingest both directions of a sync go through (ShardReplicaState::apply_remote_delta) "
+                     "merges the received value into an existing one and stores the result on every path (shared with C06 R06.3)")
+    ck.rule("R18.10", "a digest describes the state it is asked about: every digest a node hands out (AntiEntropyManager::generate_digest and "
+                      "any other producer of a StateDigest for the sync protocol) is computed by StateDigest::from_state from the key map "
+                      "passed in, on every path - no stored/memoised digest (a remote overwrite or tombstone of an existing key changes "
+                      "neither a local write counter nor the key count, so a cached digest keeps saying 'in sync'), and no digest field "
+                      "kept inside the manager")
     for cfg in ctx.configs:
         prog = ctx.prog(cfg)
         ck.configs.append(cfg)
         ck.fn_count += len(prog.fns)
+        from . import c06 as _c06
+        from .core import Alias as _Alias
+        _c06._r063(_Alias(ck, "R06.3", "R18.9"), prog, cfg)
         _rules(ck, prog, cfg)
+        _r1810(ck, prog, cfg)
 
 
 def _rules(ck, prog, cfg):
@@ -356,3 +367,44 @@ def _ops(rv):
     if k == "agg":
         return rv["ops"]
     return []
+
+
+def _r1810(ck, prog, cfg):
+    from .lib import src_of_operand
+    SD = AE + "StateDigest"
+    n = 0
+    for f in prog.lib_fns():
+        if f.file != "src/replication/anti_entropy.rs" or "::tests::" in f.id or f.kind not in ("fn", "method"):
+            continue
+        ret = str(f.locals[0]) if f.locals else ""
+        if ret != SD or f.id == SD + "::from_state" or f.d.get("implements"):
+            continue
+        n += 1
+        calls = [(b, t) for b, t in f.calls() if is_callee(t, r"StateDigest::from_state$")]
+        dom = [b for b, t in calls if all(f.dominates(b, e) for e in f.exits())]
+        fresh = False
+        for b, t in calls:
+            a = src_of_operand(f, t["args"][0])
+            if b in dom and a.kind == "path" and a.local is not None and 1 <= a.local <= f.d["argc"] and a.root != "self":
+                fresh = True
+        # the returned value is that call's result on every path
+        direct = True
+        for bb, i, st in f.stmts():
+            if st["lhs"] == {"l": 0}:
+                v = src_of_operand(f, st["rv"]["a"], through_calls=(r"::clone$",)) if st["rv"]["k"] == "use" else None
+                if not (v is not None and v.kind == "call" and is_callee(v.term, r"StateDigest::from_state$")):
+                    direct = False
+        for bb, t in f.calls():
+            if t.get("dest") == {"l": 0} and not is_callee(t, r"StateDigest::from_state$"):
+                direct = False
+        ck.check(fresh and direct, "R18.10", "%s:computed-from-the-state-passed-in%s" % (f.short, _tag(cfg)),
+                 "%s can return a StateDigest that was not computed by StateDigest::from_state from its key-map argument on that path (a stored "
+                 "or memoised digest): after a remote update to an existing key the node keeps advertising the old digest - equal digests "
+                 "for unequal states, the sync ships nothing" % f.short, f.where(), detail="from_state(keys) dominates every return")
+    ck.floor("R18.10" + _tag(cfg), n, 1)
+    a = prog.adts.get(AE + "AntiEntropyManager")
+    if a:
+        kept = [fl["n"] for v in a["variants"] for fl in v["fields"] if ("StateDigest" in fl["t"] or "MerkleNode" in fl["t"]) and "ReplicaId" not in fl["t"]]      # per-peer digests received from others are not ours
+        ck.check(not kept, "R18.10", "manager-keeps-no-digest" + _tag(cfg),
+                 "AntiEntropyManager stores a digest (%s): a digest kept across calls describes an earlier state" % kept, None,
+                 detail="no StateDigest/MerkleNode field")
